@@ -655,8 +655,9 @@ theorem patch_nil {r : Replica} {d : Doc} (hs : r.state = .doc d) : r.patch [] =
 /-- ONE operation: the public call directly -/
 theorem patch_one {r : Replica} {d : Doc} (hs : r.state = .doc d) (I : DP.DInv r.opId 0 d) (hk : KeysND d)
     {op : PatchOp} {t' : JVal} (happ : applyAt op op.path d.view.canon = some t') (hgood : Carr GoodV op) :
-    ∃ d' bd b', r.patch [op] = ({ r with opId := r.opId.next, state := .doc d', rbOps := r.rbOps ++ [⟨r.opId.next, bd⟩],
-                                        buffer := r.buffer ++ [Op.wire ⟨r.opId.next, bd⟩] }, .ok ()) ∧
+    ∃ d' bd b', r.patch [op] =
+        ({ r with opId := r.opId.next, state := .doc d', rbOps := r.rbOps ++ [⟨r.opId.next, bd⟩],
+                  buffer := r.buffer ++ [Op.wire ⟨r.opId.next, bd⟩] }, .ok ()) ∧
       d'.view.canon = t' ∧ DP.DInv r.opId b' d' ∧ KeysND d' := by
   obtain ⟨c, b, post, d', bd, ret', b', hpc, hprep, hmeta, hexec, hview, I', hk'⟩ := op_step I hk happ hgood
   rw [← hs] at hprep hexec
@@ -698,5 +699,185 @@ theorem body_run : ∀ (ops : List PatchOp) (r : Replica) (acc : List Op) (d : D
       simp only [hs, hpc, hprep, hex]
       rw [q1]
       simp
+
+/-- SEVERAL operations: one transaction unit -/
+theorem patch_many {r : Replica} {d : Doc} (hs : r.state = .doc d) (I : DP.DInv r.opId 0 d) (hk : KeysND d)
+    {ops : List PatchOp} {tf : JVal} (hlen : 2 ≤ ops.length) (happ : applyPatch ops d.view.canon = some tf)
+    (hgood : ∀ op ∈ ops, Carr GoodV op) :
+    ∃ (r1 : Replica) (acc : List Op) (d1 : Doc), r.patch ops =
+        ({ r1 with
+            rbOps := r1.rbOps ++ (⟨r.opId.next, .transaction (toString ops.length ++ " patches") (acc.length + 1)⟩ :: acc),
+            buffer := r.buffer ++
+              (⟨r.opId.next, .transaction (toString ops.length ++ " patches") (acc.length + 1)⟩ :: acc).map Op.wire },
+          .ok ()) ∧
+      acc.length = ops.length ∧ r1.state = .doc d1 ∧ d1.view.canon = tf ∧ DP.DInv r1.opId 0 d1 ∧ KeysND d1 := by
+  obtain ⟨r1, acc, d1, q1, q2, q3, q4, q5, q6, q7, _⟩ :=
+    body_run ops { r with opId := r.opId.next } [] d tf hs I.finish hk happ hgood
+  simp only [List.nil_append] at q1 q7
+  refine ⟨r1, acc, d1, ?_, q2, q3, q4, q5, q6⟩
+  rw [Replica.patch.eq_3 r ops d hs (by intro h; rw [h] at hlen; simp at hlen)
+    (by intro op h; rw [h] at hlen; simp at hlen), q1]
+  simp only [q7]
+
+/-- all three ways at once -/
+theorem patch_run {r : Replica} {d : Doc} (hs : r.state = .doc d) (I : DP.DInv r.opId 0 d) (hk : KeysND d)
+    {ops : List PatchOp} {tf : JVal} (happ : applyPatch ops d.view.canon = some tf)
+    (hgood : ∀ op ∈ ops, Carr GoodV op) :
+    (∃ d', (r.patch ops).1.state = .doc d' ∧ (r.patch ops).2 = .ok () ∧ d'.view.canon = tf ∧
+      DP.DocInv (r.patch ops).1) ∧
+    (ops.length = 0 → (r.patch ops).1 = r) ∧
+    (ops.length = 1 → ∃ o : Op, (r.patch ops).1.buffer = r.buffer ++ [o] ∧ o.id = r.opId.next) ∧
+    (2 ≤ ops.length → ∃ (tag : String) (body : List Op),
+      (r.patch ops).1.buffer = r.buffer ++ (⟨r.opId.next, .transaction tag (body.length + 1)⟩ :: body) ∧
+      body.length ≤ ops.length) := by
+  match ops, happ, hgood with
+  | [], happ, _ =>
+    simp only [applyPatch, Option.some.injEq] at happ
+    rw [patch_nil hs]
+    refine ⟨⟨d, hs, rfl, happ, d, hs, I, hk⟩, fun _ => rfl, ?_, ?_⟩
+    · intro h; simp at h
+    · intro h; simp at h
+  | [op], happ, hgood =>
+    simp only [applyPatch] at happ
+    cases h1 : applyAt op op.path d.view.canon with
+    | none => simp [h1] at happ
+    | some t1 =>
+      simp only [h1, Option.bind_some, Option.some.injEq] at happ
+      subst happ
+      obtain ⟨d', bd, b', hp, hview, I', hk'⟩ := patch_one hs I hk h1 (hgood op (by simp))
+      rw [hp]
+      refine ⟨⟨d', rfl, rfl, hview, d', rfl, I'.finish, hk'⟩, ?_, ?_, ?_⟩
+      · intro h; simp at h
+      · intro _; exact ⟨_, rfl, rfl⟩
+      · intro h; simp at h
+  | o1 :: o2 :: rest, happ, hgood =>
+    obtain ⟨r1, acc, d1, hp, q2, q3, q4, q5, q6⟩ := patch_many hs I hk (by simp) happ hgood
+    rw [hp]
+    refine ⟨⟨d1, q3, rfl, q4, d1, q3, q5, q6⟩, ?_, ?_, ?_⟩
+    · intro h; simp at h
+    · intro h; simp at h
+    · intro _
+      refine ⟨toString (o1 :: o2 :: rest).length ++ " patches", acc.map Op.wire, ?_, by simp [q2]⟩
+      simp [Op.wire, OpBody.wire]
+
+/-! ## 6. the theorems -/
+
+theorem patchByJSON_eq {r : Replica} {d : Doc} (hs : r.state = .doc d) (target : JVal) :
+    r.patchByJSON target = ((r.patch (jsonDiff d.view.canon target.canon)).1, jsonDiff d.view.canon target.canon,
+      (r.patch (jsonDiff d.view.canon target.canon)).2) := by
+  simp only [Replica.patchByJSON, hs]
+
+theorem view_obj {L : OpId} {b : Nat} {d : Doc} (I : DP.DInv L b d) (hk : KeysND d) : ∃ src, d.view.canon = .obj src := by
+  obtain ⟨m, s, hr⟩ := I.root
+  exact ⟨_, DP.shape_obj (I.dg hk) hr rfl⟩
+
+/-- the script of `patchByJSON`: it rewrites the view into the target, and carries good values -/
+theorem script_ok {L : OpId} {b : Nat} {d : Doc} (I : DP.DInv L b d) (hk : KeysND d) (tgt : List (String × JVal))
+    (hn : (JVal.obj tgt).hasNull = false) :
+    applyPatch (jsonDiff d.view.canon (JVal.obj tgt).canon) d.view.canon = some (JVal.obj tgt).canon ∧
+    ∀ op ∈ jsonDiff d.view.canon (JVal.obj tgt).canon, Carr GoodV op := by
+  obtain ⟨src, hsrc⟩ := view_obj I hk
+  have hc1 : (JVal.obj src).Canonical := by rw [← hsrc]; exact canon_canonical _
+  have hc2 : (JVal.obj tgt).canon.Canonical := canon_canonical _
+  have hn2 : (JVal.obj tgt).canon.hasNull = false := hasNull_canon _ hn
+  refine ⟨?_, carried goodV_subClosed _ _ ⟨hn2, hc2⟩⟩
+  rw [hsrc]
+  rw [canon_obj] at hc2 ⊢
+  exact apply_diff src _ hc1 hc2
+
+theorem inv_of {r : Replica} {d : Doc} (hs : r.state = .doc d) (h : DP.DocInv r) : DP.DInv r.opId 0 d ∧ KeysND d := by
+  obtain ⟨d0, hs0, I, hk⟩ := h
+  rw [hs] at hs0
+  simp only [DState.doc.injEq] at hs0
+  subst hs0
+  exact ⟨I, hk⟩
+
+/-- THE theorem: for every reachable single-replica document and every target object without nulls (and without duplicate
+    keys), PatchByJSON succeeds and the document's JSON value is exactly the target -/
+theorem patchByJSON_reaches_target (r : Replica) (d : Doc) (hs : r.state = .doc d) (h : DP.DocInv r)
+    (tgt : List (String × JVal)) (hn : (JVal.obj tgt).hasNull = false) (hk : DC.JKeysND (.obj tgt)) :
+    ∃ d', (r.patchByJSON (.obj tgt)).1.state = .doc d' ∧
+      (r.patchByJSON (.obj tgt)).2.2 = .ok () ∧
+      d'.view.canon = (JVal.obj tgt).canon ∧
+      DP.DocInv (r.patchByJSON (.obj tgt)).1 := by
+  have _ := hk
+  obtain ⟨I, hkeys⟩ := inv_of hs h
+  obtain ⟨happ, hgood⟩ := script_ok I hkeys tgt hn
+  rw [patchByJSON_eq hs]
+  exact (patch_run hs I hkeys happ hgood).1
+
+/-- it is applied as one atomic unit: nothing is queued when the document already equals the target, one operation when
+    the script has one operation, otherwise ONE transaction unit that announces its own length -/
+theorem patchByJSON_one_unit (r : Replica) (d : Doc) (hs : r.state = .doc d) (h : DP.DocInv r)
+    (tgt : List (String × JVal)) (hn : (JVal.obj tgt).hasNull = false) (hk : DC.JKeysND (.obj tgt)) :
+    let r' := (r.patchByJSON (.obj tgt)).1
+    let n := (r.patchByJSON (.obj tgt)).2.1.length          -- number of patch operations
+    (n = 0 → r' = r) ∧
+    (n = 1 → ∃ o, r'.buffer = r.buffer ++ [o] ∧ o.id = r.opId.next) ∧
+    (2 ≤ n → ∃ tag body, r'.buffer = r.buffer ++ (⟨r.opId.next, .transaction tag (body.length + 1)⟩ :: body) ∧ body.length ≤ n) := by
+  have _ := hk
+  obtain ⟨I, hkeys⟩ := inv_of hs h
+  obtain ⟨happ, hgood⟩ := script_ok I hkeys tgt hn
+  intro r' n
+  simp only [r', n, patchByJSON_eq hs]
+  exact (patch_run hs I hkeys happ hgood).2
+
+/-- patching to the value the document already has is a no-op -/
+theorem patchByJSON_same_is_noop (r : Replica) (d : Doc) (hs : r.state = .doc d) (h : DP.DocInv r) :
+    (r.patchByJSON d.view).1 = r ∧ (r.patchByJSON d.view).2.1 = [] := by
+  obtain ⟨I, hkeys⟩ := inv_of hs h
+  obtain ⟨src, hsrc⟩ := view_obj I hkeys
+  have hc : (JVal.obj src).Canonical := by rw [← hsrc]; exact canon_canonical _
+  have hnil : jsonDiff d.view.canon d.view.canon = [] := by
+    rw [hsrc]; exact (diff_nil_iff src src hc hc).mpr rfl
+  rw [patchByJSON_eq hs, hnil, patch_nil hs]
+  exact ⟨rfl, rfl⟩
+
+/-! ## 7. non-vacuity: a nested document reached by public calls, a target that changes an object key, an element
+    nested in an array and the length of that array -/
+
+namespace Ex
+
+/-- `{"a": [1, {"x": 5}], "k": "v"}`, reached by two calls from a fresh document -/
+def r : Replica :=
+  (((Replica.new .document "c" true).call (.dput Ts.oldest "a" (.arr [.num 1, .obj [("x", .num 5)]]))).1.call
+    (.dput Ts.oldest "k" (.str "v"))).1
+
+def d : Doc := match r.state with | .doc d => d | _ => Doc.empty
+
+theorem r_state : r.state = .doc d := rfl
+
+theorem r_inv : DP.DocInv r :=
+  DP.docInv_call _ _ (by simp [DP.CallKeysND, JKeysND])
+    (DP.docInv_call _ _ (by simp [DP.CallKeysND, JKeysND, JKeysNDList, JKeysNDKvs]) (DP.docInv_new "c" true))
+
+example : d.view = .obj [("a", .arr [.num 1, .obj [("x", .num 5)]]), ("k", .str "v")] := by rfl
+
+/-- the target (keys not sorted): "k" changes, the object inside the array changes, the array grows -/
+def tgt : List (String × JVal) := [("k", .str "w"), ("a", .arr [.num 1, .obj [("x", .num 6)], .num 3])]
+
+theorem tgt_nonull : (JVal.obj tgt).hasNull = false := by rfl
+theorem tgt_keys : JKeysND (.obj tgt) := by simp [tgt, JKeysND, JKeysNDKvs, JKeysNDList]
+
+/-- the script: a replace below an array index, an append to the array, a replace of an object key -/
+example : (r.patchByJSON (.obj tgt)).2.1 =
+    [.replace ["a", "1", "x"] (.num 6), .add ["a", "-"] (.num 3), .replace ["k"] (.str "w")] := by rfl
+
+/-- `patchByJSON_reaches_target` instantiated; the resulting view, written out -/
+example : ∃ d', (r.patchByJSON (.obj tgt)).1.state = .doc d' ∧ (r.patchByJSON (.obj tgt)).2.2 = .ok () ∧
+    d'.view.canon = .obj [("a", .arr [.num 1, .obj [("x", .num 6)], .num 3]), ("k", .str "w")] ∧
+    DP.DocInv (r.patchByJSON (.obj tgt)).1 :=
+  patchByJSON_reaches_target r d r_state r_inv tgt tgt_nonull tgt_keys
+
+/-- `patchByJSON_one_unit` instantiated: three operations, one transaction unit -/
+example : ∃ tag body, (r.patchByJSON (.obj tgt)).1.buffer =
+    r.buffer ++ (⟨r.opId.next, .transaction tag (body.length + 1)⟩ :: body) ∧ body.length ≤ 3 :=
+  (patchByJSON_one_unit r d r_state r_inv tgt tgt_nonull tgt_keys).2.2 (by decide)
+
+/-- `patchByJSON_same_is_noop` on a document whose view has an object nested in an array -/
+example : (r.patchByJSON d.view).1 = r ∧ (r.patchByJSON d.view).2.1 = [] :=
+  patchByJSON_same_is_noop r d r_state r_inv
+
+end Ex
 
 end Orda.DPatch
